@@ -209,7 +209,13 @@ impl BlockingManager {
         let client = {
             let mut registry = self.registries[db].write().unwrap();
             match registry.pop_first_waiter(key) {
-                Some(c) => c,
+                Some(c) => {
+                    // A client blocked on several keys is registered under each of them: it is
+                    // being served now, so none of its other registrations may stay behind
+                    // (they would swallow later elements pushed to those keys).
+                    registry.unregister_client(c.conn_id);
+                    c
+                }
                 None => return, // No clients waiting on this key
             }
         };
